@@ -175,6 +175,20 @@ CLAIMED = {
          'inheritance, no destroy of masters; dateArchived never compared.'),
    technique='Coq proof (history invariant over all histories of a versioning model) + vm_compute correspondence against sqlite',
    design='3/C20, docs/notes/C20.md'),
+ 'C01': dict(
+   text=('Machine-checked proof (Coq 8.16.1) over Model/Columns.v (22 column types x 17 value kinds; validators from_python/to_python, the '
+         'literal renderer, sqlite type affinity and storage classes, what the driver hands back; four write paths x four read paths x '
+         'cacheValues on/off): every accepted value reads back equal and of the same Python type on every path and a query for it finds the row '
+         '(C01_roundtrip_partial, C01_query_finds_partial), every other accepted value is normalised to equal values on every read path or '
+         'rejected (C01_accept_normalise_or_reject_partial); the date/time text formats and the Decimal text codec are proved concretely '
+         '(C01_datetime_text_roundtrip, C01_decimal_text_roundtrip). Stdlib codecs (base64, pickle, json, uuid) are per-value hypotheses; floats, '
+         'decimals and integers beyond int64 rest on a per-value engine oracle which the harness evaluates by asking sqlite -- where it is false '
+         'are the open findings (float text misrounded, Decimal stored as REAL, ints beyond 64 bit, tzinfo dropped), each with a witness theorem. '
+         'Format strings and type names are regenerated from source (Tie A); every value is run through all paths on sqlite (Tie B).'),
+   note=('Trusted: Coq kernel; tools/py2coq/gen_columns.py; reference semantics of sqlite affinity/storage and of the stdlib codecs (validated '
+         'only by the correspondence); floats are opaque bit patterns; only sqlite storage is modelled.'),
+   technique='Coq proof (pipeline composition theorem over all column types and paths, decimal-digit codecs by induction) + py2coq regeneration + vm_compute correspondence against sqlite',
+   design='3/C01, docs/notes/C01.md'),
  'C16': dict(
    text=('Machine-checked proof (Coq 8.16.1) over the ORM model Model/Orm.v: for every history (any operations, failures, injected faults, '
          'out-of-band SQL, any cache configuration) the dirty flag of every held object is true exactly while assignments are pending '
